@@ -772,12 +772,18 @@ func boundaryText(r *fw.Rng, kind codingKind) (string, string) {
 	// positions (in units) at which a multi-unit character must START
 	starts := map[int]rune{}
 	if len(multi) > 0 {
-		d := r.Range(-3, 3)
+		lo, hi := -3, 3
+		if kind == kUCS2 || kind == kGB {
+			// units are octets here and characters take 2 or 4 of them: a wide character that ENDS at the boundary
+			// starts 4 octets before it
+			lo, hi = -6, 4
+		}
+		d := r.Range(lo, hi)
 		for b := per; b <= target+per; b += per {
 			if r.Chance(2, 3) {
 				dd := d
 				if r.Chance(1, 4) {
-					dd = r.Range(-3, 3)
+					dd = r.Range(lo, hi)
 				}
 				starts[b+dd] = multi[r.Intn(len(multi))]
 			}
@@ -801,6 +807,15 @@ func boundaryText(r *fw.Rng, kind codingKind) (string, string) {
 		if m, ok := starts[pos]; ok {
 			rs = append(rs, m)
 			pos += unitOf(m)
+			if kind == kUCS2 && r.Bool() {
+				// emoji sequences: a variation selector, a zero-width joiner or a combining mark directly behind the wide
+				// character (U+1F3F3 U+FE0F U+200D U+1F308 …)
+				if _, planned := starts[pos]; !planned && pos < target {
+					mark := []rune{0xfe0f, 0x200d, 0x0301, 0xfe0f}[r.Intn(4)]
+					rs = append(rs, mark)
+					pos += unitOf(mark)
+				}
+			}
 			continue
 		}
 		f := filler[r.Intn(len(filler))]
